@@ -971,7 +971,7 @@ theorem checkReferences_spec (e : AEnc) (strings : AList ABuf) (stat : Bool) (s 
         by simp, by simp [ENOMEM, OK], by simp [ENOMEM, OK], fun l' hl' x hx => Or.inl ⟨l', hl', hx⟩⟩
       intro i
       rw [cc.live, c1'.live]
-      have a1 := ownE.2 i; have a2 := dES i; have a3 := hold i
+      have a1 := ownE.2 i; have a2 := dES i; have a3 := hold i; have a9 := ownS.2 i; have a10 := wf i
       simp only [List.mem_append, List.mem_singleton, List.not_mem_nil, or_false, not_false_eq_true, and_true] at *
       generalize stringsOwned stat strings.hdr strings.cells = SS at *
       clear c1 c1' cc own ownE ownS ownC keep1 ownE2 dEC hold hbor pc
@@ -994,7 +994,7 @@ theorem checkReferences_spec (e : AEnc) (strings : AList ABuf) (stat : Bool) (s 
         rcases hfR i hm with h | h
         · exact dES i hi h
         · have := hold _ (List.mem_append_left _ hi); omega
-      refine Good.bind (listDestroy_spec (fun _ => ([] : List Nat)) _ (fun it t wft _ => by simp only [pure_eq, good_ret]; exact ⟨Clean.rfl wft, rfl, rfl⟩)
+      refine Good.bind (listDestroy_spec (fun _ => ([] : List Nat)) _ (fun it t wft _ => by simp only [pure_eq, good_ret]; exact ⟨Clean.rfl wft, by simp, by simp⟩)
         (some (⟨strings.hdr, []⟩ : AList ABuf)) s2 cc.wf (by simpa [listOwned, cellsOwned] using (Owns.cons_iff.2 ⟨hsl2, by simp, Owns.nil s2⟩))) ?_
       intro _ s3 ⟨d3, hd3, nd3⟩
       have d3' : Clean s2 s3 [strings.hdr] [] := by simpa [listOwned, cellsOwned] using d3
@@ -1018,8 +1018,9 @@ theorem checkReferences_spec (e : AEnc) (strings : AList ABuf) (stat : Bool) (s 
           by simp, by simp [ENOMEM, OK], by simp [ENOMEM, OK], fun l' hl' x hx => Or.inl ⟨l', hl', hx⟩⟩
         intro i
         rw [d5'.live, c4.live, d3'.live, ccP.live, c1'.live]
-        have a1 := ownE.2 i; have a2 := dES i; have a3 := hold i; have a4 := dER i
+        have a1 := ownE.2 i; have a2 := dES i; have a3 := hold i; have a4 := dER i; have a9 := ownS.2 i; have a10 := wf i; have a11 := hfR i
         have a5 : strings.hdr ∉ e.owned := fun hm => dES _ hm (by simp [stringsOwned])
+        have a12 : strings.hdr ∈ stringsOwned stat strings.hdr strings.cells := by simp [stringsOwned]
         simp only [List.mem_append, List.mem_singleton, List.mem_cons, List.not_mem_nil, or_false, not_false_eq_true, and_true] at *
         generalize stringsOwned stat strings.hdr strings.cells = SS at *
         generalize refsOwned ref' = RR at *
@@ -1089,8 +1090,9 @@ theorem checkReferences_spec (e : AEnc) (strings : AList ABuf) (stat : Bool) (s 
             by simp, by simp [ENOMEM, OK], by simp [ENOMEM, OK], p5⟩
           · intro i
             rw [cs.live, c4'.live, d3'.live, ccP.live, c1'.live]
-            have a1 := ownE.2 i; have a2 := dES i; have a3 := hold i; have a4 := dER i; have a6 := hfE5 i; have a7 := wf i
+            have a1 := ownE.2 i; have a2 := dES i; have a3 := hold i; have a4 := dER i; have a6 := hfE5 i; have a7 := wf i; have a11 := hfR i
             have a5 : strings.hdr ∉ e.owned := fun hm => dES _ hm (by simp [stringsOwned])
+            have a12 : strings.hdr ∈ stringsOwned stat strings.hdr strings.cells := by simp [stringsOwned]
             have a8 := ownS.2 i
             simp only [refCellsOwned] at *
             generalize stringsOwned stat strings.hdr strings.cells = SS at *
@@ -1115,24 +1117,56 @@ theorem checkReferences_spec (e : AEnc) (strings : AList ABuf) (stat : Bool) (s 
           intro _ s6 ⟨d6, hd6, nd6⟩
           have d6' : Clean s5 s6 [ref'.hdr] [] := by simpa [listOwned, cellsOwned] using d6
           simp only [good_ret, List.nil_append]
-          have hfOne : ∀ i ∈ refsOwned one, i ∈ stringsOwned stat strings.hdr strings.cells ∨ s.next < i := by
+          have hfOne : ∀ i ∈ refsOwned one, i ∈ e.owned ∨ i ∈ stringsOwned stat strings.hdr strings.cells ∨ s.next < i := by
             intro i hi
             rcases cs.fresh i (List.mem_append_right _ (List.mem_cons_of_mem _ hi)) with h | h
             · rcases List.mem_append.1 h with h' | h'
-              · exfalso
-                -- a block of `e` is in `e5.owned` or was released: it cannot be in `one_ref`
-                have hl5 := ownOne5.2 i hi
-                rcases (cs.live i).1 hl5 with ⟨_, hn⟩ | _
-                · exact hn (List.mem_append_left _ h')
-                · have := hold _ (List.mem_append_left _ h')
-                  -- i ∈ e.owned and i ∈ produced: then i ∈ e5.owned or i = ref'.hdr or i ∈ one: excluded by disjointness unless in e5
-                  sorry
+              · exact Or.inl h'
               · rcases List.mem_append.1 h' with h'' | h''
                 · rcases hfR i h'' with h3 | h3
-                  · exact Or.inl h3
-                  · exact Or.inr h3
-                · simp at h''; subst h''; exact Or.inr (by omega)
-            · exact Or.inr (by omega)
-          sorry
+                  · exact Or.inr (Or.inl h3)
+                  · exact Or.inr (Or.inr h3)
+                · simp at h''; subst h''; exact Or.inr (Or.inr (by omega))
+            · exact Or.inr (Or.inr (by omega))
+          have dE5One : ∀ i ∈ e5.owned, i ∉ refsOwned one := fun i hi hm => dE5 i hi (List.mem_cons_of_mem _ hm)
+          have hn6 := d6'.next; have hh6 := d6'.hits
+          refine ⟨eh5, eo5, eu5, ⟨?_, ?_, (Owns.append_iff.2 ⟨ownE5, ownOne5, dE5One⟩).1,
+            by rw [d6.sched, cs.sched, c4.sched, d3.sched, cc.sched, c1.sched], by omega, by omega, d6.wf⟩,
+            by simp, by simp, ?_, p5⟩
+          · intro i
+            rw [d6'.live, cs.live, c4'.live, d3'.live, ccP.live, c1'.live]
+            have a1 := ownE.2 i; have a2 := dES i; have a3 := hold i; have a4 := dER i; have a6 := hfE5 i; have a7 := wf i; have a11 := hfR i
+            have a5 : strings.hdr ∉ e.owned := fun hm => dES _ hm (by simp [stringsOwned])
+            have a12 : strings.hdr ∈ stringsOwned stat strings.hdr strings.cells := by simp [stringsOwned]
+            have a8 := ownS.2 i; have a13 := hfOne i
+            have a14 : ref'.hdr ∉ refsOwned one := hrn5
+            have a15 : ref'.hdr ∉ e5.owned := fun hm => dE5 _ hm (by simp)
+            have a16 := dE5One i
+            have a17 : ref'.hdr ∈ refsOwned ref' := by simp [refsOwned]
+            simp only [refCellsOwned] at *
+            generalize stringsOwned stat strings.hdr strings.cells = SS at *
+            generalize refsOwned one = RO at *
+            generalize hRR : refsOwned ref' = RR at *
+            simp only [refsOwned] at hRR
+            rw [hRR]
+            simp only [List.mem_append, List.mem_singleton, List.mem_cons, List.not_mem_nil, or_false, not_false_eq_true, and_true, false_or] at *
+            clear c1 c1' cc ccP d3 d3' c4 c4' cs d6 d6' own ownE ownS ownC keep1 keep3 keep4 ownE2 ownE3 ownR2 ownR3 dEC hold hbor pc hp hfR dER ownSp hborSp hfE5 p5 hRR ownAll5 ownE5 ownT5 ownOne5 dE5 hfOne dE5One
+            grind
+          · intro i hi
+            rcases List.mem_append.1 hi with h | h
+            · rcases hfE5 i h with h' | h' | h'
+              · exact Or.inl (List.mem_append_left _ h')
+              · exact Or.inl (List.mem_append_right _ h')
+              · exact Or.inr ⟨h', by have := cs.wf i (ownE5.2 i h); omega⟩
+            · have h2 : i ∈ refsOwned one := by simpa using h
+              rcases hfOne i h2 with h' | h' | h'
+              · exact Or.inl (List.mem_append_left _ h')
+              · exact Or.inl (List.mem_append_right _ h')
+              · exact Or.inr ⟨h', by have := cs.wf i (ownOne5.2 i h2); omega⟩
+          · intro hh
+            exfalso
+            have b1 := h1; have b4 := h4; have b5 := h5; have bc := hc
+            simp at b1 b4 b5 bc
+            omega
 
 end Wbxml.Model.Alloc
